@@ -20,6 +20,7 @@ const watchdog = 2 * time.Second
 
 type cfgT struct {
 	clean, early, validate, keepalive, callback bool
+	kaShort bool // KeepAlive "1s" instead of "1h": the pinger really fires (not part of the model's config)
 }
 
 func (c cfgT) text() string {
@@ -238,6 +239,9 @@ func (d *director) call(s step) {
 			cfg.KeepAlive = "0s"
 			if s.cfg.keepalive {
 				cfg.KeepAlive = "1h"
+				if s.cfg.kaShort {
+					cfg.KeepAlive = "1s"
+				}
 			}
 			var cf client.ConnectFuture
 			cf, err = cl.Connect(cfg)
@@ -470,6 +474,44 @@ func runScenario(sc *scenario) (lines []string, direct []string, quiescent bool)
 			close(rec.gmap[s.name].release)
 		case "endinc":
 			d.endIncarnation(false)
+		case "waitlog":
+			// wait until an event containing the text has been logged (bound: s.n seconds; orders nothing)
+			deadline := time.Now().Add(time.Duration(s.n) * time.Second)
+			for {
+				rec.mu.Lock()
+				found := false
+				for _, l := range rec.lines {
+					if strings.Contains(l, s.name) {
+						found = true
+					}
+				}
+				rec.mu.Unlock()
+				if found {
+					break
+				}
+				if time.Now().After(deadline) {
+					d.fail("event %q never logged", s.name)
+					break
+				}
+				time.Sleep(5 * time.Millisecond)
+			}
+		case "bpong":
+			conn := d.conn
+			n := s.n
+			d.autos.Add(1)
+			go func() {
+				defer d.autos.Done()
+				for i := 0; i < n; {
+					p := conn.brokerRecv(3 * time.Second)
+					if p == nil {
+						return
+					}
+					if _, ok := p.(*packet.Pingreq); ok {
+						conn.brokerSend(&packet.Pingresp{})
+						i++
+					}
+				}
+			}()
 		}
 		if d.wd {
 			break
